@@ -1078,6 +1078,161 @@ def handmade_server(prop):
     return out
 
 
+# ======================================================================
+# the two-ended system on the real code (Coq: ystep / system_no_cross, Proofs/DgramSystem_lemmas.v)
+
+KEY_OF_CMD = {0x420a: "Q", 0x420c: "O", 0x420d: "D", 0x420e: "C"}
+
+
+class SystemRun:
+    """The real client functions and the real server.main loop composed over two FIFO links.  Events are chosen
+    on line by `policy(run)`; every prefix is re-executed on fresh real objects (scripts are short).
+    Query payloads and resolver answers are unique, so 'who asked what' and 'which socket answered what' can be
+    read off the real code's socket calls without any ghost state: a datagram carrying answer X goes astray iff
+    X was received on a resolver socket whose request was captured from another asker."""
+
+    def __init__(self, maxc, to_ns=("n", 53)):
+        self.maxc, self.to_ns = maxc, to_ns
+        self.cevs, self.sevs, self.up, self.down = [], [], [], []
+        self.asked, self.sock_req, self.ans_sock = {}, {}, {}
+        self.live = []           # (chan, [socket ids]) of the DnsProxies in `handlers`
+        self.hyp_ok, self.cross, self.delivered, self.log, self.stuck = True, [], 0, [], None
+
+    def in_flight(self, ch):
+        return (any(f[0] == ch and f[1] == "Q" for f in self.up) or any(c == ch for c, _ in self.live)
+                or any(d[0] == ch for d in self.down))
+
+    def _client(self):
+        steps = run_client("B", self.maxc, 2, self.cevs)
+        st = steps[len(self.cevs) - 1] if len(steps) >= len(self.cevs) else steps[-1]
+        if not st.startswith("OK "):
+            self.stuck = "client: " + st
+            return None
+        return parse_outs(st)
+
+    def accept(self, now, src, payload):
+        self.asked[payload] = src
+        self.cevs.append(("D", now, src, None, payload))
+        outs = self._client()
+        if outs is None:
+            return
+        for o in outs:
+            if o[0] == "F":
+                ch, cmd, data = int(o[1]), int(o[2]), unhx(o[3])
+                if cmd == CMD["Q"] and self.in_flight(ch):
+                    self.hyp_ok = False          # no_stale_alloc is violated by this run
+                self.up.append((ch, KEY_OF_CMD.get(cmd, "X"), data, 0))
+        self.log.append("A %d %s %s -> %s" % (now, addr_s(src), hx(payload), ",".join(":".join(o) for o in outs) or "~"))
+
+    def server(self, now, k, ready, answer):
+        frames, self.up = self.up[:k], self.up[k:]
+        io = [("k",), ("k",)] * sum(1 for f in frames if f[1] == "Q")      # connect + send of each new DnsProxy
+        io += [("d", answer)] if ready else []
+        if ready:
+            self.ans_sock[answer] = ready[0]
+        self.sevs.append((now, frames, ready, io))
+        steps = run_server(self.to_ns, [], self.sevs)
+        st = steps[len(self.sevs) - 1] if len(steps) >= len(self.sevs) else steps[-1]
+        if not st.startswith("OK "):
+            self.stuck = "server: " + st
+            return
+        for o in parse_outs(st):
+            if o[0] == "S":
+                self.sock_req[int(o[1])] = unhx(o[2])
+            elif o[0] == "F" and int(o[2]) == CMD["R"]:
+                self.down.append((int(o[1]), unhx(o[3])))
+        hpart = st.split(" | ")[1].split(" ")[0][2:]
+        self.live = []
+        for h in ([] if hpart == "~" else hpart.split(",")):
+            t = h.split(".")
+            if t[0] == "D":
+                self.live.append((int(t[1]), [] if t[3] == "~" else [int(x) for x in t[3].split("+")]))
+        self.log.append("S %d k=%d ready=%r -> %s" % (now, k, ready, st[:120]))
+
+    def deliver(self):
+        (ch, data), self.down = self.down[0], self.down[1:]
+        self.cevs.append(("F", ch, "R", data, None))
+        outs = self._client()
+        if outs is None:
+            return
+        for o in outs:
+            if o[0] == "G":
+                self.delivered += 1
+                payload = unhx(o[3])
+                req = self.sock_req.get(self.ans_sock.get(payload))
+                asker = self.asked.get(req)
+                if asker is None or addr_s(asker) != o[2]:
+                    self.cross.append("answer %r to the query %r of %r was delivered to %s" % (payload, req, asker, o[2]))
+        self.log.append("V ch=%d %s -> %s" % (ch, hx(data), ",".join(":".join(o) for o in outs) or "~"))
+
+
+def system_stale_witness():
+    """the run of Lemma stale_run (Props/C10.v c10_stale_reuse_example) on the real code"""
+    A, B = ("10.0.0.1", 4000), ("10.0.0.2", 4000)
+    r = SystemRun(1)
+    r.accept(0, A, b"a")
+    r.server(0, 1, [], None)
+    r.accept(31, B, b"x")
+    r.accept(31, B, b"b")
+    r.server(30, 0, [0], b"o")
+    r.deliver()
+    return r
+
+
+def system_random(rng, maxc, n):
+    srcs = [("10.0.0.%d" % i, 4000 + i) for i in range(1, 5)]
+    r = SystemRun(maxc)
+    cnow = snow = 100
+    qn = an = 0
+    for _ in range(n):
+        if r.stuck:
+            break
+        choices = ["A", "A", "S", "S"]
+        if r.down:
+            choices += ["V", "V", "V"]
+        c = rng.choice(choices)
+        if c == "A":
+            cnow += rng.choice([0, 1, 5, 29, 30, 31])
+            qn += 1
+            r.accept(cnow, rng.choice(srcs), b"q%d" % qn)
+        elif c == "S":
+            snow += rng.choice([0, 1, 5, 29, 30, 31])
+            socks = [x for _, ss in r.live for x in ss]
+            ready = [rng.choice(socks)] if socks and rng.random() < 0.7 else []
+            an += 1
+            r.server(snow, rng.randint(0, len(r.up)), ready, b"r%d" % an)
+        else:
+            r.deliver()
+    return r
+
+
+def _system_cases(ctx, rng, quick):
+    """C10 composed: no reply goes to another requester unless the run violates no_stale_alloc"""
+    w = system_stale_witness()
+    ctx.count("system_stale_witness_" + ("cross" if w.cross and not w.hyp_ok else "unexpected"))
+    ctx.case(("system", "stale-witness"), nontrivial=True, sample={"side": "system", "log": w.log, "cross": w.cross})
+    if not (w.cross and not w.hyp_ok and w.stuck is None):
+        ctx.disagree("system stale-reuse witness", {"log": w.log}, "cross=%r hyp_ok=%r stuck=%r" % (w.cross, w.hyp_ok, w.stuck),
+                     "cross delivery under violated no_stale_alloc (Lemma stale_run)", holds=True)
+    for i in range(60 if quick else 1500):
+        maxc = rng.choice([65535, 65535, 65535, 8, 2, 1])
+        r = system_random(rng, maxc, rng.randint(4, 14))
+        ctx.count("system_runs")
+        ctx.count("system_runs_hypothesis_" + ("holds" if r.hyp_ok else "violated"))
+        ctx.count("system_datagrams_delivered", r.delivered)
+        if r.stuck:
+            ctx.count("system_runs_stuck")
+        if r.cross:
+            ctx.count("system_cross_" + ("under_stale_reuse" if not r.hyp_ok else "VIOLATION"))
+        ctx.case(("system", tuple(r.log)), nontrivial=r.delivered > 0,
+                 sample={"side": "system", "max_channel": maxc, "events": len(r.log), "delivered": r.delivered,
+                         "hypothesis_holds": r.hyp_ok, "cross": r.cross[:1]})
+        if r.cross and r.hyp_ok:
+            ctx.violation("c10_no_cross_composed", {"system_log": r.log, "detail": r.cross, "max_channel": maxc})
+        if r.stuck and r.hyp_ok:
+            ctx.violation("crash", {"system_log": r.log, "detail": r.stuck, "max_channel": maxc})
+
+
 def _codec_cases(ctx, rng, quick):
     """c11_header_roundtrip on the real formatting/splitting expressions"""
     lines, impl = [], []
@@ -1125,6 +1280,8 @@ def run_check(ctx, prop):
         if fails:
             ctx.violation("%s: %s" % (base, WITNESS[fid]["what"]), {"witness": fid, "script": WITNESS[fid], "outcome": last})
     _codec_cases(ctx, rng, quick)
+    if prop == "C10":
+        _system_cases(ctx, rng, quick)
 
     # ---- client scripts
     cases = [(m, mc, fam, evs, "handmade") for m, mc, fam, evs in handmade_client(prop)]
